@@ -13,7 +13,7 @@ from ..common import Ctx
 
 LEVEL = "exploration"
 SHARDS = {"quick": 16, "thorough": 16}
-FLOOR = {"quick": 1500, "thorough": 40000}
+FLOOR = {"quick": 900, "thorough": 40000}
 REQUIRED_COUNTERS = ["roundtrips", "models_exercised", "instances_min", "instances_max", "instances_nulls",
                      "wire_keys_checked", "formatted_values_checked"]
 RULE = ("generated models of documents from the grammar (nested objects, lists, maps, nullable, formats date-time/date/uuid/time/byte/"
